@@ -438,3 +438,15 @@ pub fn c16_signal_wire_parse() {
         _ => panic!("C16: wire form of a signal changed class"),
     }
 }
+
+/// The coarse class written to `simple` agrees with the kind, for all 41 kinds (no formatting
+/// involved, so this runs in the quick tier for the whole table).
+#[kani::proof]
+#[kani::unwind(4)]
+pub fn c16_fs_simple_class_all_kinds() {
+    let i: usize = kani::any();
+    kani::assume(i < N_TABLE);
+    let (kind, _) = kind_table(i);
+    kani::cover!(i == 11, "Access(Close(Write))");
+    assert!(class_of_simple(FsEventKind::from(kind)) == class_of(kind), "C16: coarse fs class disagrees with the kind");
+}
